@@ -374,6 +374,8 @@ def config_shown(run, rep):
                             bad.append({"component": name, "phase": ph, "column": col, "shown": got, "configured": val})
             if "names" in conf and kind[0] not in H.LOADS and kind[0] not in ("rloss", "vloss"):
                 want = [p for p in sysph if p in conf["names"]] or ["N/A"]
+                if kind[0] == "rectifier":
+                    want = ["N/A"]       # a Rectifier's laws never read the phase configuration: always active (like the series losses)
                 if sorted(shown[name]) != sorted(want):
                     bad.append({"component": name, "active_phases_shown": sorted(shown[name]), "configured": want})
     return bad
